@@ -335,7 +335,7 @@ def traceLine (toks : List String) : String :=
                             | .ok (r', _) => r'
                             | .error _ => rr
                           if idx < bodyEnd then
-                            let listed := (vl[idx]?).getD "-"
+                            let listed := (((vl[idx]?).getD "-").splitOn "@").headD "-"
                             let mlist := hexOf ((validOps (Gen.table c.version) c s).map Gen.asU8)
                             if listed != "-" && listed != (if mlist.isEmpty then "e" else mlist) then
                               .error s!"step {idx}: the candidate list the body loop drew from differs from the guards: loop={listed} guards={mlist} top={stackStr (s.stack.take 6)} memo={s.memo.length}"
